@@ -14,7 +14,7 @@ def gen_images(chk, hscan, n):
         cmds, d = rulegen.rand_ruleset(r, nrules=r.range(1, 3) if i else 1)
         cases.append(("img%d" % i, cmds + ["getrules", "save"]))
         descs["img%d" % i] = d
-    out, err = vlib.run_cases(hscan, cases)
+    out, err = vlib.run_cases(hscan, cases, jobs=16)
     imgs = []
     for cid, lines in out.items():
         for l in lines:
